@@ -142,7 +142,7 @@ class EffectivePotential(ABC):
         guesses = initialGuess.resizeFields(numPoints, initialGuess.numFields())
         T = np.resize(T, (numPoints))
 
-        resValue = np.empty_like(T)
+        resValue = np.empty_like(T, dtype=float)
         resLocation = np.empty_like(guesses)
 
         for i in range(0, numPoints):
